@@ -693,3 +693,50 @@ def nsi_arenas_betweenness(A, w, exclude_neighbors=True,
             b += wc[i] * bs
         out[comp] = b / wc
     return out
+
+
+def nsi_betweenness(A, w, sources=None, targets=None):
+    """n.s.i. shortest-path betweenness by path enumeration (small graphs):
+    b_v = sum over ordered pairs (s, t), s != t, both different from v, of
+    w_s w_t * [sum over shortest s-t paths through v of the product of the
+    weights of their inner nodes other than v] / [sum over all shortest s-t
+    paths of the product of the weights of their inner nodes].  sources /
+    targets restrict s / t."""
+    from collections import deque
+    U = sym(A)
+    w = np.asarray(w, dtype=float)
+    n = len(U)
+    nb = [list(np.nonzero(U[i])[0]) for i in range(n)]
+    S = range(n) if sources is None else sorted(set(sources))
+    T = set(range(n)) if targets is None else set(targets)
+    b = np.zeros(n)
+    for s in S:
+        dist = [-1] * n
+        dist[s] = 0
+        preds = [[] for _ in range(n)]
+        q = deque([s])
+        while q:
+            u = q.popleft()
+            for v in nb[u]:
+                if dist[v] < 0:
+                    dist[v] = dist[u] + 1
+                    q.append(v)
+                if dist[v] == dist[u] + 1:
+                    preds[v].append(u)
+
+        def paths(t):
+            if t == s:
+                return [[s]]
+            return [p + [t] for u in preds[t] for p in paths(u)]
+        for t in range(n):
+            if t == s or dist[t] < 0 or t not in T:
+                continue
+            P = paths(t)
+            tot = sum(np.prod([w[u] for u in p[1:-1]]) for p in P)
+            for v in range(n):
+                if v in (s, t):
+                    continue
+                num = sum(np.prod([w[u] for u in p[1:-1] if u != v])
+                          for p in P if v in p[1:-1])
+                b[v] += w[s] * w[t] * num / tot
+    return b
